@@ -121,7 +121,11 @@ func init() {
 // regex generator (RE2 syntax) with the words of the file as raw material.
 func genRegex(rng *rand.Rand, words []string) string {
 	w := func() string { return regexp.QuoteMeta(words[rng.Intn(len(words))]) }
-	switch rng.Intn(23) {
+	switch rng.Intn(25) {
+	case 23:
+		return []string{".+", "..", ".?", ".*.", "(.*)", ".+$"}[rng.Intn(6)] // next to the "everything" shortcuts
+	case 24:
+		return "^" + w() + "|^$"
 	case 20:
 		return "^" + w() + "$" // a literal anchored at both ends: whole-line match only
 	case 21:
